@@ -477,14 +477,22 @@ def write(
                         if inside is False:
                             # ...if it is one node past the targetted node, write
                             if source_grp.name == target_grp.name:
-                                if tree in (True,None):
-                                    _append_branch(
+                                if tree is True:
+                                    new_node = _write_single_node(
                                         target_grp,
-                                        data,
-                                        appendover
+                                        data
+                                    )
+                                    _write_tree(
+                                        new_node,
+                                        data
+                                    )
+                                elif tree is False:
+                                    _write_single_node(
+                                        target_grp,
+                                        data
                                     )
                                 else:
-                                    _write_single_node(
+                                    _write_tree(
                                         target_grp,
                                         data
                                     )
